@@ -6,6 +6,7 @@ or executed.
 from __future__ import annotations
 
 import ast
+import copy
 import json
 import os
 from dataclasses import dataclass, field
@@ -86,7 +87,9 @@ def walk_local(fn: ast.AST):
 class _Canon(ast.NodeTransformer):
     """Syntactic canonicalisation applied to every parsed module, so that the analyses do not depend on spelling:
     `x = x <op> e` becomes `x <op>= e` (names and attribute/subscript targets alike); `pass` is dropped from blocks that
-    contain other statements; a two-way `if not c: A else: B` becomes `if c: B else: A`.  Positions are preserved."""
+    contain other statements; a two-way `if not c: A else: B` becomes `if c: B else: A`; negations are pushed inwards
+    (`not not a` -> `a`, De Morgan, `not a == b` -> `a != b`, likewise in / is; order comparisons are left alone because
+    `not a < b` and `a >= b` differ for unordered values).  Positions are preserved."""
 
     def visit_Assign(self, n: ast.Assign):
         self.generic_visit(n)
@@ -100,14 +103,44 @@ class _Canon(ast.NodeTransformer):
                 return ast.copy_location(ast.AugAssign(target=n.targets[0], op=n.value.op, value=n.value.right), n)
         return n
 
-    def visit_If(self, n: ast.If):
+    _FLIP = {ast.Eq: ast.NotEq, ast.NotEq: ast.Eq, ast.In: ast.NotIn, ast.NotIn: ast.In, ast.Is: ast.IsNot, ast.IsNot: ast.Is}
+
+    def visit_UnaryOp(self, n: ast.UnaryOp):
         self.generic_visit(n)
-        # `if not c: A else: B` (a plain two-way branch, no elif on either side) is the same statement as `if c: B else: A`
-        if isinstance(n.test, ast.UnaryOp) and isinstance(n.test.op, ast.Not) and n.orelse \
-                and not (len(n.orelse) == 1 and isinstance(n.orelse[0], ast.If)) \
-                and not getattr(n, "_is_elif", False):
-            n.test = n.test.operand
-            n.body, n.orelse = n.orelse, n.body
+        if not isinstance(n.op, ast.Not):
+            return n
+        x = n.operand
+        if isinstance(x, ast.UnaryOp) and isinstance(x.op, ast.Not):
+            return x.operand                                             # not not a  ->  a   (in a boolean context)
+        if isinstance(x, ast.BoolOp):                                    # De Morgan
+            other = ast.Or() if isinstance(x.op, ast.And) else ast.And()
+            vals = [self.visit_UnaryOp(ast.copy_location(ast.UnaryOp(op=ast.Not(), operand=v), v)) for v in x.values]
+            return ast.copy_location(ast.BoolOp(op=other, values=vals), n)
+        if isinstance(x, ast.Compare) and len(x.ops) == 1 and type(x.ops[0]) in self._FLIP:
+            return ast.copy_location(ast.Compare(left=x.left, ops=[self._FLIP[type(x.ops[0])]()], comparators=x.comparators), n)
+        return n
+
+    @staticmethod
+    def _negatives(t: ast.AST) -> int:
+        """Number of negative literals of a test in negation normal form (`not x`, `!=`, `not in`, `is not`)."""
+        if isinstance(t, ast.BoolOp):
+            return sum(_Canon._negatives(v) for v in t.values)
+        if isinstance(t, ast.UnaryOp) and isinstance(t.op, ast.Not):
+            return 1
+        if isinstance(t, ast.Compare) and len(t.ops) == 1 and isinstance(t.ops[0], (ast.NotEq, ast.NotIn, ast.IsNot)):
+            return 1
+        return 0
+
+    def visit_If(self, n: ast.If):
+        self.generic_visit(n)              # the test is now in negation normal form
+        # A plain two-way branch (else present, no elif on either side) has two spellings: `if P: A else: B` and
+        # `if not-P: B else: A`.  The one whose test has fewer negative literals is canonical (ties: as written).
+        if n.orelse and not (len(n.orelse) == 1 and isinstance(n.orelse[0], ast.If)) and not getattr(n, "_is_elif", False) \
+                and not (len(n.body) == 1 and isinstance(n.body[0], ast.If) and n.body[0].orelse):
+            neg = self.visit_UnaryOp(ast.copy_location(ast.UnaryOp(op=ast.Not(), operand=copy.deepcopy(n.test)), n.test))
+            if self._negatives(neg) < self._negatives(n.test):
+                n.test = neg
+                n.body, n.orelse = n.orelse, n.body
         return n
 
     def generic_visit(self, node):
